@@ -1,3 +1,4 @@
 import Audit.Tool
 import Uds.Props.C02
+import Uds.Props.C02Call
 #audit Uds.Props.C02
